@@ -128,6 +128,54 @@ fn handle(line: &str) -> String {
                 Err(crate::qr::QRCodeError::SpecifiedVersion) => "ERR SpecifiedVersion".into(),
             }
         }
+        "purity" => {
+            // purity <hex input>: the same build through different histories and from several threads
+            use crate::qr::QRBuilder;
+            let input = unhex(a[1]);
+            let fields = |q: &QRCode| qr_fields(q);
+            let base = match QRBuilder::new(input.clone()).ecl(ECL::M).build() {
+                Ok(q) => fields(&q),
+                Err(_) => "ERR".to_string(),
+            };
+            let mut same = true;
+            // setter order and overwritten values: last value wins
+            let mut b = QRBuilder::new(input.clone());
+            b.ecl(ECL::H).mask(Mask::Meadow).ecl(ECL::L).version(Version::V40).ecl(ECL::M);
+            let mut b2 = QRBuilder::new(input.clone());
+            b2.version(Version::V40).mask(Mask::Meadow).ecl(ECL::M);
+            let r1 = b.build().map(|q| fields(&q)).unwrap_or("ERR".into());
+            let r2 = b2.build().map(|q| fields(&q)).unwrap_or("ERR".into());
+            same &= r1 == r2;
+            // builder reuse and unrelated builds in between
+            let mut b3 = QRBuilder::new(input.clone());
+            b3.ecl(ECL::M);
+            let x1 = b3.build().map(|q| fields(&q)).unwrap_or("ERR".into());
+            let _ = QRBuilder::new("something else entirely 1234567890").ecl(ECL::H).build();
+            let _ = QRBuilder::new(vec![0u8; 500]).build();
+            let x2 = b3.build().map(|q| fields(&q)).unwrap_or("ERR".into());
+            same &= x1 == base && x2 == base;
+            // threads
+            let mut hs = Vec::new();
+            for t in 0..8 {
+                let inp = input.clone();
+                hs.push(std::thread::spawn(move || {
+                    let mut out = Vec::new();
+                    for k in 0..4 {
+                        if (t + k) % 2 == 0 {
+                            let _ = QRBuilder::new(vec![(t * 16 + k) as u8; 30 + t]).build();
+                        }
+                        out.push(QRBuilder::new(inp.clone()).ecl(ECL::M).build().map(|q| qr_fields(&q)).unwrap_or("ERR".into()));
+                    }
+                    out
+                }));
+            }
+            for h in hs {
+                for r in h.join().unwrap() {
+                    same &= r == base;
+                }
+            }
+            format!("same={}", same)
+        }
         "to_str" => {
             let qr = qr_from(ver(a[1]), &unhex(a[2]));
             hex(qr.to_str().as_bytes())
